@@ -19,7 +19,8 @@ LEVEL_TEXT = ("States are scripts of up to 5 tables (same name in two schemas, n
               "byte-identical to the alter-free script, and statements naming an undefined table must raise."
               " Since the seeded-change audit: statements aimed at columns an earlier ADD / RENAME produced (DROP / RENAME / FOREIGN KEY over them), lower-case index directions, every pair also in bigquery mode (schema reported as dataset), undefined targets after a same-named table of another schema was just resolved, and all 20^3 triples over the column-list kinds on two tables in the quick tier."
               ' Wave 5: a foreign key without referenced column list, a two-word referential action in an ALTER (known finding), every ordered pair of statement kinds on the unqualified table under each of the 13 other output modes; thorough: 58^3 triples over all kinds on the two same-named tables and 24^4 histories of length 4 over the column-list kinds (587 000 histories).'
-              " Defect hunt: the column TYPE is part of the model; five more ADD DEFAULT value forms (string, negative, keyword; call and parenthesised value as known finding), ADD <column> NOT NULL and pg_dump's ALTER COLUMN .. SET DEFAULT (known findings, depth 1 only).")
+              " Defect hunt: the column TYPE is part of the model; five more ADD DEFAULT value forms (string, negative, keyword; call and parenthesised value as known finding), ADD <column> NOT NULL and pg_dump's ALTER COLUMN .. SET DEFAULT (known findings, depth 1 only)."
+              ' Wave 6: a foreign key to a keyword-named table and a fractional ADD DEFAULT value.')
 LEVEL_NOTE = ("The reference model covers the observables the property names (column list, sizes, defaults, unique flags, alter section, "
               "index entries); dropped_/modified_columns bookkeeping shapes are not compared. Column operands of ADD UNIQUE / ADD DEFAULT "
               "are spelled as declared.")
